@@ -14,7 +14,8 @@ EXPLANATION = ('Constructors and _run of Kenamond 1/2/3 and the DSD cylindrical 
                'detonator data, speeds, radii and one symbolic evaluation point; on every feasible path z3 decides the '
                'eikonal equation |grad bt| = 1/D_local from the exact symbolic gradient, causality (bt >= earliest '
                'detonation time, bt at a detonator), and continuity across code branches (cross-path equality of the '
-               'branch formulas on the switching surface).')
+               'branch formulas on the switching surface), and first arrival (never earlier than the straight-line time, strictly later '
+               'when the straight segment is blocked by the obstacle).')
 BOUNDS = ['one evaluation point per run (two for the Lipschitz obligation)', 'geometry 2 and 3 enumerated']
 OUTSIDE = ['Kenamond 2 continuity across |p|=R is structural (min/max of continuous candidates) and not separately encoded',
            'Kenamond 3 continuity at the shadow boundary theta=0 needs an arccos addition formula: attempted in the thorough tier only']
